@@ -463,9 +463,9 @@ func tssOne(c tssCase, F *findings) {
 			sort.Ints(s)
 			sets = append(sets, s)
 		}
-		add(all[:c.k])      // the first k players (what the repo's tests use)
-		add(all[c.l-c.k:])  // the last k
-		add(all)            // everybody
+		add(all[:c.k])     // the first k players (what the repo's tests use)
+		add(all[c.l-c.k:]) // the last k
+		add(all)           // everybody
 		for j := 0; j < lib.Scale(5, 12); j++ {
 			add(shuffled(r, all)[:c.k])
 		}
